@@ -1,6 +1,8 @@
 package sym
 
 import (
+	"os"
+	"runtime/debug"
 	"fmt"
 	"go/types"
 	"math/big"
@@ -117,6 +119,7 @@ type Exec struct {
 	localMerge    map[string]bool
 	localSumm     map[string]bool
 	civilN        int
+	inInit        int
 	linked        map[int]bool
 	noMerge       bool
 	formattedBasketDenoms []*smt.Term
@@ -149,7 +152,14 @@ func (c *Config) Bound(name string, def int) int {
 
 func (x *Exec) newObj(v Value, label string) *Object {
 	x.objN++
-	return &Object{ID: x.objN, Val: v, Label: label}
+	return &Object{ID: x.objN, Val: v, Label: label, Proc: x.inInit > 0}
+}
+
+// procWrite records a write to per-process state outside package initialisation.
+func (x *Exec) procWrite(o *Object) {
+	if o != nil && o.Proc && x.inInit == 0 {
+		x.Effects = append(x.Effects, Effect{Kind: "hidden-write", Name: o.Label})
+	}
 }
 
 func (x *Exec) exit(status, msg string) {
@@ -157,6 +167,9 @@ func (x *Exec) exit(status, msg string) {
 }
 
 func (x *Exec) Unsupported(format string, a ...interface{}) {
+	if os.Getenv("GOSYM_STACK") != "" {
+		fmt.Fprintf(os.Stderr, "UNSUPPORTED %s\n%s\n", fmt.Sprintf(format, a...), debug.Stack())
+	}
 	x.exit("unsupported", fmt.Sprintf(format, a...))
 }
 
@@ -525,13 +538,13 @@ func (x *Exec) noteFunc(fn *ssa.Function, n int) {
 
 // CallFunction interprets fn(args...).
 func (x *Exec) CallFunction(fn *ssa.Function, args []Value, bind []Value) Value {
+	// always wait for the package build (sync.Once): another worker may be in the middle of
+	// it, and a half-built function has non-nil Blocks with nil instructions (lifting)
+	if fn.Pkg != nil {
+		fn.Pkg.Build()
+	}
 	if fn.Blocks == nil {
-		if fn.Pkg != nil {
-			fn.Pkg.Build()
-		}
-		if fn.Blocks == nil {
-			x.Unsupported("call of external function without body: %s", fn.String())
-		}
+		x.Unsupported("call of external function without body: %s", fn.String())
 	}
 	x.depth++
 	if x.depth > x.Cfg.MaxDepth {
@@ -784,7 +797,10 @@ func (x *Exec) globalObj(g *ssa.Global) *Object {
 	}
 	elem := g.Type().(*types.Pointer).Elem()
 	o := x.newObj(nil, "global:"+g.String())
+	o.Proc = true
 	x.gl[g] = o
+	x.inInit++
+	defer func() { x.inInit-- }()
 	name := g.String()
 	tn := typeName(elem)
 	if p, ok := elem.(*types.Pointer); ok {
